@@ -1,7 +1,8 @@
 """C03 - transactions are atomic and always pay their fee.
-design: Block.tla RunTx (fee debit first, checkpoint, action fold, rollback on failure) is the reference; KV/TStateView
-        model checking (C04) establishes that rollback-to-checkpoint on the real view structure restores exactly the
-        checkpointed values, which is what RunTx relies on.
+design: TxKV.tla executes a transaction's actions op by op on the KV machine with the checkpoint / rollback steps of
+        Transaction.Execute and TLC checks that the outcome is the all-or-nothing fold RunActions of Block.tla (every
+        transaction of <=2 actions x <=2 ops over 2 keys, 4 scopes, every parent / block-pending state); TStateView_MC
+        establishes that the real view structure refines KV.
 binding: real Processor.Execute on single-transaction blocks with 1-6 scripted actions that write, delete, re-create,
         read balances (so the fee debit is observable from inside the first action) and fail at any point; each trace
         line is validated by TLC against RunTx: fee = prices x units charged exactly once, all-or-nothing effects,
@@ -18,6 +19,7 @@ _s.loader.exec_module(ch)
 
 def run(ctx):
     if ctx.only is None:
+        vlib.tlc_mc(ctx, "TxKV_MC", ctx.pick("TxKV_MC_quick.cfg", "TxKV_MC.cfg"), label="txkv", timeout=1500)
         vlib.tlc_mc(ctx, "TStateView_MC", "TStateView_MC_quick.cfg", label="view")
     files = ch.record(ctx, "^TestVerifChainExec$", "c03", ctx.pick(120, 1500))
     feats = ch.stats(ctx, files)
